@@ -30,12 +30,23 @@ def XEv.id : XEv → Nat
 
 def splitOnStr (s sep : String) : List String := (s.splitOn sep).map (fun x => x.trimAscii.toString)
 
-def parseEv (s : String) : Option XEv :=
+/-- an event of a line.  Object-level histories (`cfg L E ; …`) use arrive / arrivec / cancel / finish; connection-level
+    histories (`conn <transport> L E ; …`, harness/c16/conn_test.go) name the operation that makes the request arrive
+    (get / post / observe / unobserve) and `respond` for the peer's response that lets the request finish; ping / pong are not
+    requests and are no events for the limiter. -/
+def parseEv (s : String) : Option (List XEv) :=
   match words s with
-  | ["arrive", i, p] => do some (.arrive (← i.toNat?) (← p.toNat?) false)
-  | ["arrivec", i, p] => do some (.arrive (← i.toNat?) (← p.toNat?) true)
-  | ["cancel", i] => do some (.cancel (← i.toNat?))
-  | ["finish", i] => do some (.finish (← i.toNat?))
+  | ["arrive", i, p] => do some [.arrive (← i.toNat?) (← p.toNat?) false]
+  | ["arrivec", i, p] => do some [.arrive (← i.toNat?) (← p.toNat?) true]
+  | ["cancel", i] => do some [.cancel (← i.toNat?)]
+  | ["finish", i] => do some [.finish (← i.toNat?)]
+  | ["get", i, p] => do some [.arrive (← i.toNat?) (← p.toNat?) false]
+  | ["post", i, p] => do some [.arrive (← i.toNat?) (← p.toNat?) false]
+  | ["observe", i, p] => do some [.arrive (← i.toNat?) (← p.toNat?) false]
+  | ["unobserve", i, p, _] => do some [.arrive (← i.toNat?) (← p.toNat?) false]
+  | ["respond", i] => do some [.finish (← i.toNat?)]
+  | ["ping", _] => some []
+  | ["pong", _] => some []
   | _ => none
 
 def parseIds (s : String) : Option (List Nat) :=
@@ -75,7 +86,7 @@ def parseSeg (s : String) : Option Seg :=
       | _ => none
     | ["panic"] => some (.panic r)
     | _ => do
-      let evs ← (splitOnStr l "&").mapM parseEv
+      let evs := (← (splitOnStr l "&").mapM parseEv).flatten
       let o ← parseObs r
       some (.line evs o)
   | _ => none
@@ -85,6 +96,9 @@ def parseHistory (line : String) : Option (Int × Int × List Seg) :=
   | c :: rest =>
     match words c with
     | ["cfg", l, e] => do
+      let segs ← rest.mapM parseSeg
+      some ((← parseInt? l), (← parseInt? e), segs)
+    | ["conn", _, l, e] => do
       let segs ← rest.mapM parseSeg
       some ((← parseInt? l), (← parseInt? e), segs)
     | _ => none
